@@ -55,6 +55,11 @@ func (k BankKeeper) GetBalance(ctx context.Context, addr sdk.AccAddress, denom s
 	return coin
 }
 
+// BlockedAddr implements the fee controller bank keeper. No address is blocked in the mock.
+func (k BankKeeper) BlockedAddr(addr sdk.AccAddress) bool {
+	return false
+}
+
 func (k BankKeeper) SendCoins(
 	ctx context.Context,
 	fromAddr sdk.AccAddress,
